@@ -83,7 +83,9 @@ fn extract_bracket_expr(pattern: &str) -> Option<(String, &str)> {
 
                     if matches!(delim, '.' | '=' | ':') {
                         let rest = chars.as_str();
-                        let end = rest.find([delim, ']'])? + 2;
+                        let mut terminator = String::from(delim);
+                        terminator.push(']');
+                        let end = rest.find(&terminator)? + 2;
                         expr.push_str(&rest[..end]);
                         chars = rest[end..].chars();
                     }
